@@ -231,8 +231,6 @@ def detClose {n : Nat} (A : Mat Float n n) (d : Float) (exact : Rat) : Bool :=
   -- d = fl(sign·ΠÛ_ii) = p(1+θ_n); p = det(A+ΔA)
   decide (rabs (toRat d - exact) ≤ tol + gamma n * rabs p)
 
-def transpose {α : Type} {m n : Nat} (A : Mat α m n) : Mat α n m := Mat.ofFn fun i j => A.get j i
-
 def squareOf {α : Type} (X : AnyMat α) : Option ((n : Nat) × Mat α n n) :=
   if h : X.m = X.n then some ⟨X.n, h ▸ X.M⟩ else none
 
